@@ -296,6 +296,34 @@ pub fn step(ctx: &Ctx, w: &World, ev: &mut Ev) {
                         ev.violation("charge_exact", &format!("full_liquidation,{},{}", sign(f), shape), json!({"to_insurance_fund": to_if.to_string(), "expected": exp_if.to_string(), "funding_owed": f.to_string()}));
                     }
                 }
+                Some(p2) if p2.size == 0 => {
+                    // the whole position was taken although a record (size 0) is left behind: the position has been
+                    // "fully liquidated" and the funding it owed must have been charged - afterwards nothing can charge
+                    // it any more, (cumulative - checkpoint) x 0 being 0 for ever. Reference for the outcome without
+                    // funding: what the partial path leaves at a fraction of 100% (Appendix A.4), margin - |spot PnL| -
+                    // the whole penalty.
+                    ev.eval(f != 0, &("event", "full_liquidation_record_kept", sign(f)), || json!({"event": "full_liquidation_record_kept", "funding_owed": f.to_string(), "margin": pos.margin.to_string()}));
+                    if f != 0 {
+                        ev.count("event_with_funding/full_liquidation_record_kept");
+                    }
+                    let eng = ctx.pre.eng.clone().unwrap_or_default();
+                    let q = quote_moved(ctx, v);
+                    let penalty = mul_div(q, eng.liq_fee, d).unwrap_or(0);
+                    if let Some(spot_pnl) = pq_field_i(ctx.preq, "pnl_spot", "unrealized_pnl") {
+                        let m0 = pos.margin as i128 - spot_pnl.abs() - penalty as i128;
+                        let exp = m0 - f;
+                        let diff = p2.margin as i128 - exp;
+                        if f != 0 && diff != 0 && diff != f && diff != -f {
+                            // the reference for the outcome without funding is a classification aid, not a statement:
+                            // only the two exact shapes (charge omitted, charge doubled) are reported
+                            ev.count("full_liquidation_record_kept_other_difference");
+                        }
+                        if f != 0 && (diff == f || diff == -f) {
+                            let shape = if diff == f { "funding_not_charged" } else { "charged_twice" };
+                            ev.violation("charge_exact", &format!("full_liquidation_record_kept,{},{}", sign(f), shape), json!({"margin_pre": pos.margin.to_string(), "margin_left": p2.margin.to_string(), "expected": exp.to_string(), "funding_owed": f.to_string(), "spot_pnl": spot_pnl.to_string(), "penalty": penalty.to_string()}));
+                        }
+                    }
+                }
                 Some(p2) => {
                     ev.eval(f != 0, &("event", "partial_liquidation", sign(f)), || json!({"event": "partial_liquidation", "funding_owed": f.to_string()}));
                     if p2.checkpoint != pos.checkpoint {
